@@ -25,6 +25,7 @@ import Driver.IqDrv
 import Driver.BulkDrv
 import Driver.StopDrv
 import Driver.StopRefDrv
+import Driver.FifoDrv
 /-! `driver <model>`: reads harness output (cases) on stdin, prints one verdict line per case. -/
 open Driver
 
@@ -57,6 +58,7 @@ def dispatch (model : String) (c : Case) : String :=
   | "bulk" => BulkDrv.runCase c
   | "stop" => StopDrv.runCase c
   | "stopref" => StopRefDrv.runCase c
+  | "fifo" => FifoDrv.runCase c
   | _ => s!"case {c.id} reject 0 unknown-model-{model}"
 
 def main (args : List String) : IO UInt32 := do
